@@ -49,4 +49,5 @@ f851927 C01
 72b1b63 C15
 2fd3255 C18
 d2451f6 C18
+a46d743 C13 C14
 LIST
